@@ -364,3 +364,16 @@ Example wf_example : let a := {| a_kind := CloneSetK; a_plan := [IPct 20; IPct 5
 Proof. cbn zeta. split.
   { constructor; cbn; try lia; try reflexivity; try (split; [lia|discriminate]); try (split; [lia|reflexivity]). }
   repeat split; try (vm_compute; reflexivity). eexists. vm_compute. reflexivity. Qed.
+
+(* C11: the readiness target of an ordinary batch (no rollback bookkeeping) is what the batch calls for: the step's share of
+   the workload rounded UP and capped at its size; Deployment kinds keep one old pod below 100% by design (new_rs_limit) *)
+Definition batch_calls_for (k : kind) (step : ios) (n : Z) : Z :=
+  match k with DeployPartK | BGDeployK => new_rs_limit step n | _ => Z.min n (scaled true step n) end.
+Theorem desired_is_what_the_batch_calls_for a step c : 0 <= a_n a ->
+  znth (a_plan a) (a_cur a) = Some step -> calc_ctx a = Some c -> a_noneed a = None ->
+  batch_calls_for (a_kind a) step (a_n a) <= c_desired c.
+Proof.
+  intros Hn Hs H Hnn. unfold calc_ctx in H. rewrite Hs, Hnn in H. injection H as <-.
+  unfold batch_calls_for, planned_of. destruct (a_kind a); cbn [c_desired]; try lia.
+  all: repeat match goal with |- context [if ?c then _ else _] => destruct c eqn:? end; lia.
+Qed.
